@@ -70,4 +70,16 @@ CHECKS["C08"] = dict(
     note="Trusts: marker methods reveal the function a recursion entered. Naming the function itself is only constrained for the function's own calls (statement), which no rewriting can change; it is not separately probed.",
     ref="5 C08")
 
+CHECKS["C18"] = dict(
+    category="fault_enumeration",
+    technique="TLA+ model of the build as steps with Fail actions (Build.tla, TLC: AnswersCorrect, RecoversAfterRemoval) + systematic fault injection on the real code at every hook point and executed library line + natural fault sources, probes judged by the Doc resolution rule (Trace_Resolve C18Clause)",
+    text="Every way the property names for a build to fail is enumerated on the real code: an invalid method (four kinds) at every registration position, a user hook raising on its n-th invocation, and an injected exception at every guarded hook point and at sampled (quick) / every (thorough) executed source line of the library, during first build, rebuild after a change and cache-miss resolution. After each fault three probe calls, the removal of the offender and three more probes are judged by TLC against the documented resolution rule: configuration error or the answer over the complete registered set, never a partial table. Build.tla states the same as a step machine; its pinned configuration reproduces the original defect as a TLC counter-example, the repaired one is verified.",
+    note="Trusts: interrupt granularity = executed source line (trace function raising); configuration error = exception raised out of the build or the injected fault; the failing action itself is not judged, only what follows.",
+    ref="5 C18")
+CHECKS["C19"] = dict(
+    technique="TLA+ model of concurrent builds (Build.tla with threads, TLC: EachAsAlone, FinalStateCorrect, all interleavings) + cooperative scheduler over real threads exploring single / double / targeted triple pre-emption schedules at hook and source-line granularity, results judged by the Doc resolution rule (Trace_Resolve C19Clause)",
+    text="Real threading threads are serialised by a cooperative scheduler whose scheduling points are the guarded hook points or every executed library line; schedules are enumerated systematically (every single pre-emption at hook level; sampled or all at line level; A-to-a / B-to-b / A-resumes pairs; the late-rebuild pattern that catches a missing double check) over racing first calls, racing cache misses for equal and different argument types and racing call_next chains. Each thread's outcome and three later probes must be what the call returns alone. Build.tla explores all interleavings of the model; its pinned configuration reproduces the original race.",
+    note="Trusts: line-granular pre-emption (no intra-line bytecode races); the scheduler treats a thread that makes no progress for 40 ms as blocked on a lock. Concurrent registration while calling is out of scope (the statement says 'fully defined').",
+    ref="5 C19")
+
 PENDING_REASON = "check not built yet in this round (planned, see DESIGN section 10)"
